@@ -460,7 +460,7 @@ Lemma pause_cut (tagP : Z) (rows : list (Q * Q)) P' q R b tag :
   (forall x, In x es -> e_tag x = tagP -> In x (tagged tagP rows)) ->
   (forall r, In r rows -> In (mkev (tagP + 1) r) es) ->
   es = (P' ++ [q]) ++ R -> e_tag q = tagP ->
-  kle_ev q b tag -> (forall r, In r R -> klt_ev b tag r) -> tag = tagP.
+  kle_ev q b tag -> (forall r, In r R -> klt_ev b tag r) -> e_beat q == b /\ tag = tagP.
 Proof.
   intros HtagP HP Hin E Ht Hq HR.
   assert (Hqes : In q es) by (rewrite E; apply in_or_app; left; apply in_or_app; right; left; reflexivity).
@@ -473,7 +473,7 @@ Proof.
   - specialize (A e' Hin). apply ev_lt_asym in A. congruence.
   - exfalso. rewrite <- Hin in Hqe. apply ev_lt_asym in Hqe as X. congruence.
   - specialize (HR e' Hin). unfold klt_ev, e' in HR. unfold kle_ev in Hq. rewrite Eq in Hq. simpl in HR, Hq.
-    destruct HR as [X|[X X']]; destruct Hq as [Y|[Y Y']]; try lra. lia.
+    destruct HR as [X|[X X']]; destruct Hq as [Y|[Y Y']]; try lra. split; [rewrite Eq; simpl; exact Y|lia].
 Qed.
 
 Lemma tu_at_cut P R b tag : es = P ++ R -> (forall p, In p P -> kle_ev p b tag) -> (forall r, In r R -> klt_ev b tag r) ->
@@ -488,12 +488,12 @@ Proof.
   assert (Hq : kle_ev q b tag) by (apply HP; apply in_or_app; right; left; reflexivity).
   unfold is_pause_tag in C1. apply orb_true_iff in C1 as [C1|C1]; apply Z.eqb_eq in C1.
   - assert (tag = tSTOP); [|subst tag; discriminate C2].
-    apply (pause_cut tSTOP (td_stops td) P' q R b tag); try assumption.
+    apply (proj2 (A:=e_beat q == b)). apply (pause_cut tSTOP (td_stops td) P' q R b tag); try assumption.
     + left; reflexivity.
     + intros x Hx Hxt. apply in_tagged_of_tag; [exact Hx|exact Hxt|tauto].
     + intros r Hr. apply rows_in_events. do 5 right. apply tagged_In'. exists r. auto.
   - assert (tag = tDELAY); [|subst tag; discriminate C2].
-    apply (pause_cut tDELAY (td_delays td) P' q R b tag); try assumption.
+    apply (proj2 (A:=e_beat q == b)). apply (pause_cut tDELAY (td_delays td) P' q R b tag); try assumption.
     + right; reflexivity.
     + intros x Hx Hxt. apply in_tagged_of_tag; [exact Hx|exact Hxt|tauto].
     + intros r Hr. apply rows_in_events. do 3 right. left. apply tagged_In'. exists r. auto.
